@@ -1,6 +1,7 @@
 """C09: reversed / split / cropped trace the same curve under the documented parameter map."""
 from __future__ import annotations
 import math
+import numpy as np
 from fractions import Fraction as Fr
 from ..tracejobs import *
 from .. import symtrace as st, common
@@ -195,6 +196,16 @@ def sample(ctx, budget=1.0, hint=None, broken=None):
         else:
             k = {'line': 2, 'quad': 3, 'cubic': 4}[kind]
             ps, scale = _rand_pts(r, k)
+            if r.random() < 0.15:
+                # the same curves spelt with other number types: a 1-D curve on the real axis given by Python ints, numpy ints or floats,
+                # or control points taken out of a numpy complex array
+                ntype = r.choice(['int', 'int', 'np.int64', 'float', 'np.complex128'])
+                if ntype == 'np.complex128':
+                    ps = list(np.array(ps, dtype=complex))
+                else:
+                    vals = [r.randint(-9, 9) for _ in range(k)]
+                    ps = [{'int': int, 'np.int64': np.int64, 'float': float}[ntype](v) for v in vals]
+                scale = (ntype,)
             if all(q == ps[0] for q in ps) or (kind == 'line' and ps[0] == ps[1]):
                 continue
             seg = _mk(spt, kind, ps)
@@ -214,11 +225,13 @@ def sample(ctx, budget=1.0, hint=None, broken=None):
             ta, tb = sorted([r.uniform(0, 0.6), r.uniform(0.4, 1)])
             if ta < tb:
                 cr_ = seg.cropped(ta, tb)
-                got_ = (rv.start, rv.end, rv.radius, rv.rotation, bool(rv.large_arc), bool(rv.sweep),
+                # (the radii are compared up to rounding: the constructor enlarges them by sqrt(Lambda) whenever the computed Lambda
+                # exceeds 1, which happens by an ulp for end points that lie on the ellipse only up to rounding)
+                got_ = (rv.start, rv.end, rv.rotation, bool(rv.large_arc), bool(rv.sweep),
                         cr_.start, cr_.end, cr_.rotation, bool(cr_.large_arc), bool(cr_.sweep))
-                want_ = (seg.end, seg.start, seg.radius, seg.rotation, bool(seg.large_arc), not seg.sweep,
+                want_ = (seg.end, seg.start, seg.rotation, bool(seg.large_arc), not seg.sweep,
                          seg.point(ta), seg.point(tb), seg.rotation, abs(seg.delta * (tb - ta)) > 180, bool(seg.sweep))
-                if got_ != want_ or abs(cr_.radius - seg.radius) > 1e-9 * abs(seg.radius):
+                if got_ != want_ or abs(cr_.radius - seg.radius) > 1e-9 * abs(seg.radius) or abs(rv.radius - seg.radius) > 1e-9 * abs(seg.radius):
                     fail('arc.reversed/cropped constructor data', 'Arc.reversed() / Arc.cropped() do not hand the expected end points, radii, rotation and flags to Arc()',
                          {'seg': desc, 't0': ta, 't1': tb}, repr(got_), repr(want_))
         t = r.choice([0.5, 0.25, 0.125, 0.875, r.uniform(0.02, 0.98)])
@@ -330,7 +343,7 @@ def sample(ctx, budget=1.0, hint=None, broken=None):
                 sig = 'Path.cropped/length/T1=0-on-closed-path'
             fail(sig, 'length of cropped(T0,T1) is not length(T0,T1)', {'path': desc, 'T0': T0, 'T1': T1, 'wrap': wrap}, repr(cp.length()), repr(want_len), rep + '.length()')
     return {'evaluations': n_eval, 'distinct_nontrivial': len(nontriv), 'failures': fails, 'samples': samples,
-            'rule': 'random segments of all four kinds (scales 1e-2..1e3), split/crop parameters incl. 0, 1, dyadic; random open/closed paths '
+            'rule': 'random segments of all four kinds (scales 1e-2..1e3; 15% of the Beziers spelt with Python ints, numpy ints or floats on the real axis, or numpy complex scalars), split/crop parameters incl. 0, 1, dyadic; random open/closed paths '
                     '(dyadic lines with exact joints, or mixed kinds), caches filled or not before the operation, T0/T1 incl. joints and wrap-around. '
                     'distinct = distinct (kind, scale) / (path, n, closed, dyadic)'}
 
